@@ -632,6 +632,7 @@ int main(int argc, char *argv[]) {
 
     if (!output_code_filename.open_write(output_code)) {
       nout << "Unable to write to " << output_code_filename << "\n";
+      exit(1);
     } else {
       output_code << output_buffer_str;
 
@@ -652,6 +653,13 @@ int main(int argc, char *argv[]) {
 
       if (build_python_native_wrappers) {
         write_python_table_native(output_code);
+      }
+
+      // A write may have failed at any point (e.g. the device is full).
+      output_code.flush();
+      if (output_code.fail()) {
+        nout << "Error writing to " << output_code_filename << "\n";
+        exit(1);
       }
     }
   }
